@@ -19,6 +19,9 @@ package c04
 //	      fails AFTER its commit timestamp was assigned, or above the limit (Set fails);
 //	ro    a reader that begins, reads and ends.
 //
+// A third of the w/edge transactions commit through CommitWith; the worker then waits for
+// the callback, whose argument is the outcome that is judged.
+//
 // Oracle (the property's two sentences, judged on observed calls and returns only):
 //   - Commit returned nil: a transaction begun afterwards sees every write of it, with
 //     its value, all at ONE version; that version is different from the version of every
@@ -52,6 +55,7 @@ type sOp struct {
 	NKeys  int    `json:",omitempty"` // w: own keys written (1..2)
 	Shared int    `json:",omitempty"` // w: 0 = none, 1.. = read and write shared key Shared-1
 	D      int    `json:",omitempty"` // edge: value length = limit - 1 - len(key) - D
+	Async  bool   `json:",omitempty"` // commit through CommitWith; the worker waits for the callback
 }
 
 type sCase struct {
@@ -78,6 +82,9 @@ func genSched(t *rapid.T) sCase {
 			case "edge":
 				// D in 1..12: accepted by Set, refused by the write pipeline; <=0: refused by Set; >12: commits
 				op.D = rapid.SampledFrom([]int{-3, 0, 1, 2, 6, 11, 12, 13, 20, 4, 8}).Draw(t, "d")
+			}
+			if op.K != "ro" {
+				op.Async = rapid.IntRange(0, 2).Draw(t, "async") == 0
 			}
 			ops = append(ops, op)
 		}
@@ -237,7 +244,15 @@ func runSchedOnce(c sCase, r *pbt.Rec) error {
 					continue
 				}
 				rec.start = next()
-				rec.err = tx.Commit()
+				if op.Async {
+					// the callback runs on a goroutine of the engine; the outcome is what it reports
+					done := make(chan error, 1)
+					tx.CommitWith(func(e error) { done <- e })
+					rec.err = <-done
+					r.Label("commit:through-callback")
+				} else {
+					rec.err = tx.Commit()
+				}
 				rec.end = next()
 				switch {
 				case rec.err == nil:
